@@ -13,12 +13,29 @@ From Verif Require Import Lib.Params Spec.Hades Spec.Grain Spec.PoseidonRef Mode
 Import ListNotations.
 Local Open Scope Z_scope.
 
-(* the reference parameters really are the generator's output, for the schedule of the statement *)
+(* the partial-round schedule of the property text *)
+Theorem C01_schedule : rp_schedule = [56; 57; 56; 60; 60; 63; 64; 63; 60; 66; 60; 65; 70; 60; 64; 68]%nat.
+Proof. exact eq_refl. Qed.
+
+(* for EACH of the 16 widths the reference parameters are the generator's output *)
 Theorem C01_reference_is_grain :
-  rp_schedule = [56; 57; 56; 60; 60; 63; 64; 63; 60; 66; 60; 65; 70; 60; 64; 68]%nat /\
-  grain_params 2 56 = Some (GrainT2.RC, GrainT2.MDS) /\
-  grain_params 17 68 = Some (GrainT17.RC, GrainT17.MDS).
-Proof. exact (conj eq_refl (conj GrainT2.params_ok GrainT17.params_ok)). Qed.
+  grain_params 2 (nth 0 rp_schedule 0%nat) = Some (GrainT2.RC, GrainT2.MDS) /\
+  grain_params 3 (nth 1 rp_schedule 0%nat) = Some (GrainT3.RC, GrainT3.MDS) /\
+  grain_params 4 (nth 2 rp_schedule 0%nat) = Some (GrainT4.RC, GrainT4.MDS) /\
+  grain_params 5 (nth 3 rp_schedule 0%nat) = Some (GrainT5.RC, GrainT5.MDS) /\
+  grain_params 6 (nth 4 rp_schedule 0%nat) = Some (GrainT6.RC, GrainT6.MDS) /\
+  grain_params 7 (nth 5 rp_schedule 0%nat) = Some (GrainT7.RC, GrainT7.MDS) /\
+  grain_params 8 (nth 6 rp_schedule 0%nat) = Some (GrainT8.RC, GrainT8.MDS) /\
+  grain_params 9 (nth 7 rp_schedule 0%nat) = Some (GrainT9.RC, GrainT9.MDS) /\
+  grain_params 10 (nth 8 rp_schedule 0%nat) = Some (GrainT10.RC, GrainT10.MDS) /\
+  grain_params 11 (nth 9 rp_schedule 0%nat) = Some (GrainT11.RC, GrainT11.MDS) /\
+  grain_params 12 (nth 10 rp_schedule 0%nat) = Some (GrainT12.RC, GrainT12.MDS) /\
+  grain_params 13 (nth 11 rp_schedule 0%nat) = Some (GrainT13.RC, GrainT13.MDS) /\
+  grain_params 14 (nth 12 rp_schedule 0%nat) = Some (GrainT14.RC, GrainT14.MDS) /\
+  grain_params 15 (nth 13 rp_schedule 0%nat) = Some (GrainT15.RC, GrainT15.MDS) /\
+  grain_params 16 (nth 14 rp_schedule 0%nat) = Some (GrainT16.RC, GrainT16.MDS) /\
+  grain_params 17 (nth 15 rp_schedule 0%nat) = Some (GrainT17.RC, GrainT17.MDS).
+Proof. exact grain_schedule_ok. Qed.
 
 (* the regenerated round counts are the circomlib schedule *)
 Theorem C01_meta : PoseidonMeta.NROUNDSF = 8%nat /\ PoseidonMeta.NROUNDSP = rp_schedule.
